@@ -203,6 +203,10 @@ def _bit_axioms(terms):
                     if z3.is_app(y) and y.decl().eq(shl_f):
                         b, k = y.arg(0), y.arg(1)
                         out.append(z3.Implies(z3.And(x >= 0, x < pow2_f(k), b >= 0, k >= 0), e == x + y))
+                    kc = _mult_pow2(y)
+                    if kc is not None:
+                        # (hi * 2^k) | lo  ==  hi * 2^k + lo   when 0 <= lo < 2^k and hi >= 0   (disjoint bit ranges)
+                        out.append(z3.Implies(z3.And(x >= 0, x < (1 << kc), y >= 0), e == x + y))
             for c in e.children():
                 walk(c)
 
